@@ -222,7 +222,7 @@ def check_document_attrs(ctx, s, k=0):
     attribute, HTML() verbatim; a document argument REPLACES what the user's own <html> element has under that name."""
     from ..ref import charref
 
-    variant = k % 5
+    variant = k % 7
     body = ht.tags.body("b")
     try:
         if variant == 0:
@@ -233,8 +233,13 @@ def check_document_attrs(ctx, s, k=0):
             doc, want = ht.HTMLDocument(ht.tags.html(body, class_=s, style="k:v;"), style=ht.HTML("x:y;")), [("class", s, False), ("style", "x:y;", True)]
         elif variant == 3:
             doc, want = ht.HTMLDocument(ht.tags.html(body, title=ht.HTML("h")), data_v=s, title=s), [("title", s, False), ("data-v", s, False)]
-        else:
+        elif variant == 4:
             doc, want = ht.HTMLDocument(body, **{"data-a": s, "data-b": ht.HTML("m&amp;m")}), [("data-a", s, False), ("data-b", "m&amp;m", True)]
+        elif variant == 5:
+            # two spellings of one name among the document's arguments are merged in argument order, as on any element
+            doc, want = ht.HTMLDocument(ht.div("x"), **{"class_": s, "lang": "en", "class": "zz", "data_x": "1", "data-x": s}), [("class", s + " zz", False), ("lang", "en", False), ("data-x", "1 " + s, False)]
+        else:
+            doc, want = ht.HTMLDocument(ht.tags.html(body, class_="own"), **{"class_": s, "class": ht.HTML("h")}), [("class", None, None)]
         out = doc.render()["html"]
     except Exception as e:
         ctx.violation("attr-supply-raises", "a document with attribute value %r raised %r" % (s[:60], e), {"value": s[:300], "variant": variant})
@@ -249,6 +254,13 @@ def check_document_attrs(ctx, s, k=0):
     t0 = toks[0]
     if t0[0] != "open" or t0[1] != "html" or [a for a, _ in t0[2]] != [n for n, _, _ in want]:
         ctx.violation("attr-set-differs", "document: <html> carries %r, expected %r" % ([a for a, _ in t0[2]] if t0[0] == "open" else t0, [n for n, _, _ in want]), wit)
+        return
+    if variant == 6:
+        # plain + HTML() spellings of one name: the plain part escaped for an attribute, the HTML() part verbatim, one blank between
+        from ..ref.attrs import AttrModel
+        why = consume_value(t0[2][0][1], [("plain", s), ("sep", " "), ("html", "h")])
+        if why:
+            ctx.violation("attr-merge-plain-with-html", "document: <html class=\"%s\">: %s" % (t0[2][0][1][:80], why), wit)
         return
     for (a, raw), (_, val, is_html) in zip(t0[2], want):
         why = (None if raw == val else "HTML() value not written verbatim") if is_html else charref.check_escaped(raw, val, charref.ATTR_SET)
